@@ -57,10 +57,17 @@ def tryCloseWrite : Kind → Bool
   | .cw => true
   | _ => false
 
+/-- How a scripted side ends; `hold`: a PASSIVE peer — its Read blocks until the relay tells it that the
+other direction is over (half-closes its write side; for the UDP relay: closes the UDP socket /
+half-closes the tunnel), then it ends too (EOF). -/
+inductive Tl where
+  | eof | err | hold
+deriving DecidableEq, Repr, Inhabited
+
 /-- A socket as the relay sees it. -/
 structure EP where
   reads : List Bytes        -- what successive Reads return (an empty chunk is `(0, nil)`)
-  tail : Tail               -- then EOF or an error
+  tail : Tl                 -- then EOF, an error, or nothing until it is told (passive peer)
   fused : Bool              -- last chunk and tail are returned together
   wfail : Option Nat        -- the Write call with this index is refused
   closeOnTail : Bool        -- full close: once its tail has been returned every Write to it is refused
@@ -87,22 +94,25 @@ def sinkRefuses (dst : EP) (dstTailSeen : Bool) (nw : Nat) : Bool :=
   dst.wfail == some nw || (dst.closeOnTail && dstTailSeen)
 
 /-- `readErr != nil` branch: record the byte count, an error unless EOF, leave the loop. -/
-def Dir.finishRead (tail : Tail) (d : Dir) : Dir :=
-  { d with done := true, bytes := d.delivered.length, err := if tail == .err then .read else d.err }
+def Dir.finishRead (tailErr : Bool) (d : Dir) : Dir :=
+  { d with done := true, bytes := d.delivered.length, err := if tailErr then .read else d.err }
+
+/-- A passive peer never returns data and tail from the same Read. -/
+def EP.fusedEff (e : EP) : Bool := e.fused && e.tail != .hold
 
 /-- One iteration of `for { nr, readErr := src.Read(buf); if nr > 0 { dst.Write … }; if readErr != nil { … break } }`
 followed (when the loop is left) by `tryCloseWrite(dst)`. -/
 def dirStep (src dst : EP) (dstTailSeen : Bool) (d : Dir) : Dir :=
   if d.done then d else
-  let r := rdNext d.pending src.fused cloudconstants.CopyBufferSize
+  let r := rdNext d.pending src.fusedEff cloudconstants.CopyBufferSize
   let d1 := { d with pending := r.rest, tailSeen := d.tailSeen || r.fin }
   if r.data.isEmpty then
-    if r.fin then d1.finishRead src.tail else d1
+    if r.fin then d1.finishRead (src.tail == .err) else d1
   else if sinkRefuses dst dstTailSeen d.nw then
     { d1 with nw := d.nw + 1, wfEnv := true, done := true, err := .write }
   else
     let d2 := { d1 with nw := d.nw + 1, delivered := d.delivered ++ r.data }
-    if r.fin then d2.finishRead src.tail else d2
+    if r.fin then d2.finishRead (src.tail == .err) else d2
 
 /-- Schedule tokens of the TCP relay. `a`/`b`: the A→B / B→A goroutine runs one loop iteration
 (Read, Write, checks) without interruption. `ah`/`bh`: the same, but the sink is slow: the `Write`
@@ -128,16 +138,25 @@ def wroteSomething (d d' : Dir) : Bool := decide (d'.delivered.length > d.delive
 def TcpSt.aSeen (s : TcpSt) : Bool := (s.abHeld.getD s.ab).tailSeen
 def TcpSt.bSeen (s : TcpSt) : Bool := (s.baHeld.getD s.ba).tailSeen
 
+/-- Has the relay told A that the B→A direction is over (a half-close reached A's transport)? -/
+def TcpSt.toldA (A : EP) (s : TcpSt) : Bool := s.ba.done && tryCloseWrite A.kind
+def TcpSt.toldB (B : EP) (s : TcpSt) : Bool := s.ab.done && tryCloseWrite B.kind
+
+/-- The goroutine reading `src` sits in a Read that does not return: the script is exhausted, the
+peer is passive and has not been told anything. -/
+def blockedRead (src : EP) (d : Dir) (told : Bool) : Bool :=
+  d.pending.isEmpty && src.tail == .hold && !told
+
 def tcpStep (A B : EP) (s : TcpSt) (t : TTok) : TcpSt :=
   match t with
-  | .a => if s.abHeld.isSome then s else { s with ab := dirStep A B s.bSeen s.ab }
-  | .b => if s.baHeld.isSome then s else { s with ba := dirStep B A s.aSeen s.ba }
+  | .a => if s.abHeld.isSome || blockedRead A s.ab (s.toldA A) then s else { s with ab := dirStep A B s.bSeen s.ab }
+  | .b => if s.baHeld.isSome || blockedRead B s.ba (s.toldB B) then s else { s with ba := dirStep B A s.aSeen s.ba }
   | .ah =>
-    if s.abHeld.isSome then s else
+    if s.abHeld.isSome || blockedRead A s.ab (s.toldA A) then s else
     let d := dirStep A B s.bSeen s.ab
     if wroteSomething s.ab d then { s with abHeld := some d } else { s with ab := d }
   | .bh =>
-    if s.baHeld.isSome then s else
+    if s.baHeld.isSome || blockedRead B s.ba (s.toldB B) then s else
     let d := dirStep B A s.aSeen s.ba
     if wroteSomething s.ba d then { s with baHeld := some d } else { s with ba := d }
   | .ax => match s.abHeld with
@@ -155,9 +174,10 @@ def TcpSt.returned (s : TcpSt) : Bool := s.ab.done && s.ba.done
 /-- Iterations that certainly exhaust a script. -/
 def stepsFor (reads : List Bytes) : Nat := reads.flatten.length + reads.length + 1
 
-/-- A schedule followed by "let pending writes complete, let A→B run to its end, then B→A". -/
+/-- A schedule followed by "let pending writes complete, let A→B run until it ends or waits for a
+passive peer, let B→A run to its end, give A→B one more turn (a passive A has been told by now)". -/
 def tcpComplete (A B : EP) (σ : List TTok) : List TTok :=
-  σ ++ [.ax, .bx] ++ List.replicate (stepsFor A.reads) .a ++ List.replicate (stepsFor B.reads) .b
+  σ ++ [.ax, .bx] ++ List.replicate (stepsFor A.reads) .a ++ List.replicate (stepsFor B.reads) .b ++ [.a]
 
 /-- What the fake sockets and the caller observe. -/
 structure TcpObs where
@@ -367,12 +387,6 @@ def decIter (v : Variant) (tailErr fused : Bool) (s : Dec) : Dec :=
 
 /-! ## UDP relay: both goroutines -/
 
-/-- How a scripted side ends; `hold`: the Read blocks until the relay closes the UDP socket /
-half-closes the tunnel, then returns. -/
-inductive Tl where
-  | eof | err | hold
-deriving DecidableEq, Repr, Inhabited
-
 structure UdpCase where
   uevs : List UEv
   utail : Tl
@@ -385,6 +399,8 @@ structure UdpSt where
   enc : Enc
   dec : Dec
   decHeld : Option Dec := none  -- tunnel→UDP is blocked inside `udpConn.Write`; its state when the Write returns
+  nsent : Nat := 0              -- asynchronous local socket (`mapping.UDPVirtualConn`): `Write` only queues a private
+                                -- COPY of the datagram; so many of `dec.out` have been sent by its `writeLoop`
   udpClosed : Bool := false     -- the relay closed udpConn (tunnel direction ended)
   cwT : Bool := false           -- the relay half-closed the tunnel (UDP direction ended)
 deriving DecidableEq, Repr
@@ -397,6 +413,8 @@ encode, or a ticker flush) without interruption. `t`: one iteration of the tunne
 iteration) STAYS IN PROGRESS until `w`/`v`. A blocked goroutine does not move. -/
 inductive UTok where
   | u | t | uh | th | w | v
+  | s       -- asynchronous local socket: its send loop sends the next queued datagram
+  | sa      -- … sends everything that is queued
 deriving DecidableEq, Repr
 
 def utailEnd : Tl → Option Bool
@@ -440,6 +458,8 @@ def udpStep (v : Variant) (c : UdpCase) (s : UdpSt) (t : UTok) : UdpSt :=
   | .v => match s.decHeld with
     | some d => s.commitDec v d
     | none => s
+  | .s => if s.nsent < s.dec.out.length then { s with nsent := s.nsent + 1 } else s
+  | .sa => { s with nsent := s.dec.out.length }
 
 def udpRun (v : Variant) (c : UdpCase) (σ : List UTok) : UdpSt := σ.foldl (udpStep v c) (udpInit c)
 
@@ -448,7 +468,7 @@ def UdpSt.returned (s : UdpSt) : Bool := s.enc.done && s.dec.done
 /-- A schedule followed by: writes in progress complete, the UDP side runs until it ends or blocks,
 the tunnel side runs to its end, the UDP side gets one more turn (to notice that its socket was closed). -/
 def udpComplete (c : UdpCase) (σ : List UTok) : List UTok :=
-  σ ++ [.w, .v] ++ List.replicate (c.uevs.length + 1) .u ++ List.replicate (stepsFor c.tchunks) .t ++ [.u]
+  σ ++ [.w, .v] ++ List.replicate (c.uevs.length + 1) .u ++ List.replicate (stepsFor c.tchunks) .t ++ [.u] ++ [.sa]
 
 structure UdpObs where
   ret : Bool
@@ -464,6 +484,11 @@ deriving DecidableEq, Repr
 def udpObs (s : UdpSt) : UdpObs :=
   { ret := s.returned, tun := s.enc.flushes.flatten, udp := s.dec.out, nread := s.enc.nread,
     serr := s.enc.serr, rerr := s.dec.rerr, sent := s.enc.sent, recv := s.dec.recv }
+
+/-- Observation when the local side is the asynchronous `mapping.UDPVirtualConn`: the local application
+receives what the send loop has sent — the queued COPIES, whatever happened to the relay's read buffer
+between `Write` and the send. -/
+def udpObsV (s : UdpSt) : UdpObs := { udpObs s with udp := s.dec.out.take s.nsent }
 
 /-! ## SOCKS5 UDP-ASSOCIATE tunnel codec (internal/client/socks5_tunnel.go, `udpTunnelConn`)
 
